@@ -16,6 +16,7 @@ Every type is interpreted as a `Codec` (the six entry points the Rust traits giv
 Names in comments are the Rust names.
 -/
 import SwimVerif.Model.Util
+import SwimVerif.Generated.FormConsts
 
 namespace SwimVerif.Form
 
@@ -154,10 +155,13 @@ def optDecAttr (c : Codec) (v : Val) : Option Inst :=
   | .extant => some .none
   | v => (c.decAttr v).map .some
 
-/-- `FirstOf<EmptyBodyRecognizer, Mapped<T::BodyRec>>`: an empty body without attributes is `None`. -/
+/-- `FirstOf<EmptyBodyRecognizer, Mapped<T::BodyRec>>`: a body without attributes that is empty, or holds the
+single item `Extant` (how a delegated `None` is written; accepted since the repair of C16-F1), is `None`. -/
 def optDecBody (c : Codec) (attrs : List Attr) (items : List Item) : Option Inst :=
   match attrs, items with
   | [], [] => some .none
+  | [], [(none, .extant)] =>
+    if Generated.emptyBodyAcceptsExtant then some .none else (c.decBody attrs items).map .some
   | _, _ => (c.decBody attrs items).map .some
 
 def optCodec (c : Codec) : Codec where
